@@ -322,6 +322,8 @@ def perturbation_test(rng, lam, y, tau, forest, ref, tolJ):
     """objective must not decrease by more than tolJ along feasible directions; returns a failure text or None.
     Directions: random integer vectors per free component, single components, and the direction towards `ref`."""
     n = len(tau)
+    if any(float(v) != float(v) or abs(float(v)) == float("inf") for v in tau):
+        return "trend contains NaN/inf: the objective is undefined (no minimiser returned)"
     lamq = Fr(str(lam))
     yq, tq = frs(y), [Fr(float(v)) for v in tau]
     J0 = objective_exact(lamq, yq, tq)
@@ -581,6 +583,17 @@ def run_hpf_case(ctx: Ctx, case, rng, collect):
     YW = grid(x, f, lo, hi)
     nv = YW.shape[1]
     ctx.evaluations += 1
+    # ---- a trend must exist wherever data exist (requested span and encompassing span); NaN / empty output is an oracle
+    #      failure of the property itself, never an exception further down
+    for name, ser, arr, yarr in (("requested span", t, T, Y), ("encompassing span", tw, TW, YW)):
+        if ser.start is None or arr.shape[1] != nv or np.isnan(arr)[~np.isnan(yarr)].any():
+            ctx.fail(site_prefix + "-trend-missing-where-data-exist", case,
+                     f"{name}: trend is empty or NaN at {int(np.isnan(arr)[~np.isnan(yarr)].sum()) if arr.shape == yarr.shape else 'all'} "
+                     f"of the {int((~np.isnan(yarr)).sum())} periods where data exist (trend start={ser.start}, shape={ser.data.shape})")
+            return True
+    if np.isnan(TW).any():
+        ctx.fail(site_prefix + "-trend-missing-where-data-exist", case, f"encompassing span: trend has {int(np.isnan(TW).sum())} NaN (missing observations must be bridged)")
+        return True
     # ---- shape: the requested span only clips (start and length of the output)
     if t.start is None or t.start.serial != slo or t.data.shape[0] != shi - slo + 1 or np.isnan(T).any() or T.shape[1] != nv:
         ctx.fail(site_prefix + "-output-span", case, f"trend start={t.start} shape={t.data.shape}, requested {slo}..{shi}, {nv} variants")
